@@ -389,6 +389,13 @@ class Run:
                 kw = {}
                 if sc.methods2:
                     kw['interface'] = sc.iface_name if call['which'] == 1 else sc.iface2_name
+                    # a call naming no interface goes to the first interface of the proxy that declares the member -
+                    # whatever was called on that proxy before, by name or not
+                    if (call['which'] == 1 and sc.proxy_mode[call['caller']] == 'explicit'
+                            and call['method'] not in ('Ping', 'GetManagedObjects') and (sc.idx + call['k']) % 3 != 0):
+                        del kw['interface']
+                        ctx.count('unqualified_calls_of_a_member_two_interfaces_declare'
+                                  if call['method'] in sc.methods2 else 'unqualified_calls')
                 # the keyword arguments a caller may add do not change what the call does
                 extra = [{}, {}, {'autoStart': False}, {'timeout': 50000.0}, {'autoStart': False, 'timeout': 50000.0},
                          {'expectReply': True}][(sc.idx + call['k']) % 6]
